@@ -435,6 +435,68 @@ fn repo_inputs() -> Vec<String> {
     v
 }
 
+/// Pipeline definitions and static samplers: property blocks with known, unknown and repeated names and values of
+/// every kind (entry points, strings, numbers, words, nested blocks)
+fn property_blocks(ch: &[u16]) -> String {
+    let mut pos = 0usize;
+    let mut pick = |n: usize| -> usize {
+        let v = ch.get(pos).copied().unwrap_or(0) as usize;
+        pos += 1;
+        (v * n) >> 16
+    };
+    const NAMES: [&str; 30] = [
+        "ComputeShader", "VertexShader", "PixelShader", "MeshShader", "TaskShader", "RenderTargetFormat0", "RenderTargetFormat1", "RenderTargetFormat7", "RenderTargetFormat8", "DepthTargetFormat",
+        "DefaultBindGroup", "CullMode", "WindingOrder", "BlendState", "BlendState0", "BlendState7", "BlendState8", "Unknown", "cullmode", "BlendEnabled", "SrcBlend", "DstBlend", "BlendOp", "SrcBlendAlpha",
+        "DstBlendAlpha", "BlendOpAlpha", "WriteMask", "Filter", "AddressU", "MaxAnisotropy",
+    ];
+    const VALUES: [&str; 40] = [
+        "cs", "vs", "ps", "ms", "ts", "declared_only", "over", "nothing", "NS::cs", "\"R8G8B8A8_UNORM\"", "\"D32_FLOAT\"", "\"\"", "\"None\"", "\"Front\"", "\"Back\"", "\"Clockwise\"", "\"CounterClockwise\"", "\"Sideways\"", "None",
+        "Back", "0", "1", "3", "7", "8", "4294967296", "-1", "1.5", "true", "false", "0xFFu", "\"Zero\"", "\"One\"", "\"SrcAlpha\"", "\"Add\"", "\"Subtrack\"", "\"Max\"", "MIN_MAG_MIP_LINEAR", "Clamp", "cs + 1",
+    ];
+    fn block(pick: &mut dyn FnMut(usize) -> usize, depth: usize, out: &mut String) {
+        out.push_str("{\n");
+        for _ in 0..pick(9) {
+            let repeat_previous = pick(5) == 0;
+            let name = if repeat_previous && out.contains(" = ") {
+                // a name that already occurs in this text
+                let names: Vec<&str> = out.lines().filter_map(|l| l.trim().split(" = ").next()).filter(|n| !n.is_empty() && n.chars().all(|c| c.is_ascii_alphanumeric())).collect();
+                if names.is_empty() { NAMES[pick(NAMES.len())].to_string() } else { names[pick(names.len())].to_string() }
+            } else {
+                NAMES[pick(NAMES.len())].to_string()
+            };
+            out.push_str(&format!("    {} = ", name));
+            if depth < 2 && pick(6) == 0 {
+                block(pick, depth + 1, out);
+            } else {
+                out.push_str(VALUES[pick(VALUES.len())]);
+            }
+            out.push_str(if pick(12) == 0 { "\n" } else { ";\n" });
+        }
+        out.push_str("}\n");
+    }
+    let mut s = String::from(
+        "[numthreads(8, 8, 1)] void cs(uint3 id : SV_DispatchThreadID) {}\nvoid vs(uint vid : SV_VertexID, out float4 pos : SV_Position) { pos = float4(0, 0, 0, 1); }\nfloat4 ps() : SV_Target0 { return float4(0, 0, 0, 1); }\nvoid declared_only();\nvoid over(int a) {}\nvoid over(float a) {}\nstruct MV { float4 p : SV_Position; };\n[outputtopology(\"triangle\")] [numthreads(1, 1, 1)] void ms(out vertices MV v[3], out indices uint3 t[1]) { SetMeshOutputCounts(3, 1); }\nstruct PL { uint a; };\ngroupshared PL pl;\n[numthreads(1, 1, 1)] void ts() { DispatchMesh(1u, 1u, 1u, pl); }\nnamespace NS { [numthreads(1, 1, 1)] void cs() {} }\n",
+    );
+    for k in 0..(1 + pick(3)) {
+        match pick(4) {
+            0 => {
+                s.push_str(&format!("SamplerState samp{} = StaticSampler\n", k));
+                block(&mut pick, 1, &mut s);
+                s.push_str(";\n");
+            }
+            _ => {
+                s.push_str(&format!("Pipeline {}\n", ["P", "Q", "P"][k % 3]));
+                // a plausible stage first most of the time, so that the state properties are reached
+                let mut b = String::new();
+                block(&mut pick, 0, &mut b);
+                let stage = ["    ComputeShader = cs;\n", "    VertexShader = vs;\n    PixelShader = ps;\n", "    MeshShader = ms;\n    PixelShader = ps;\n", "    TaskShader = ts;\n    MeshShader = ms;\n", ""][pick(5)];
+                s.push_str(&b.replacen("{\n", &format!("{{\n{}", stage), 1));
+            }
+        }
+    }
+    s
+}
+
 fn config_strategy() -> impl Strategy<Value = (usize, u8, bool, u8)> {
     (0usize..5, 0u8..4, any::<bool>(), any::<u8>())
 }
@@ -457,7 +519,7 @@ fn wrap(gen_kind: &str, text: String, cfg: &(usize, u8, bool, u8)) -> Value {
 }
 
 pub fn run(ctx: &mut Ctx) {
-    ctx.rule = "Inputs: (a) byte strings, printable-ASCII strings and bracket soups; (b) token soups over the RSSL token table incl. extreme literals and directive words; (c) generated programs, valid and with 1-3 mutations (delete / duplicate / swap spans, insert tokens, extreme literals 99999999999999999999 / 4294967296 / 1e999 / 0x, unterminated comments / strings / conditionals, self-referential defines, truncation, up to 6 cast-like prefixes, bracket flips); (d) expressions wrapped in up to 12 parentheses / blocks with up to 6 ambiguous cast-like prefixes; (e) the repository's own .rssl/.hlsl inputs with the same mutations; (f) a catalogue of unsupported or unusual constructs (packoffset, register space4, huge bind groups, bodiless entry points, duplicate pipeline names, ## on API defines, recursive includes ...) ; x {DirectX, Vulkan, Vulkan+buffer addresses, Metal, Metal bytecode} x {all, named, no-pipeline} x layout validation on/off x API defines. Oracle (in a supervised worker process): compile returns; an error renders to a non-empty string; no panic (caught, keyed by source file + normalised message), no process death (SIGSEGV = stack overflow, SIGABRT), CPU time <= 2 s per 4 KB (re-run alone before reporting; 60 s wall kill switch). Non-trivial = input of >= 24 bytes. Distinct = hash of the record.".into();
+    ctx.rule = "Inputs: (a) byte strings, printable-ASCII strings and bracket soups; (b) token soups over the RSSL token table incl. extreme literals and directive words; (c) generated programs, valid and with 1-3 mutations (delete / duplicate / swap spans, insert tokens, extreme literals 99999999999999999999 / 4294967296 / 1e999 / 0x, unterminated comments / strings / conditionals, self-referential defines, truncation, up to 6 cast-like prefixes, bracket flips); (d) expressions wrapped in up to 12 parentheses / blocks with up to 6 ambiguous cast-like prefixes; (e) the repository's own .rssl/.hlsl inputs with the same mutations; (f') Pipeline definitions and StaticSampler initialisers with 0-8 properties per block from 30 known / unknown / misspelt names (repeated on purpose) and 40 values (entry points incl. declared-only, overloaded and namespaced functions, format and state strings, numbers, words, expressions, nested blocks to depth 2), missing semicolons; (f) a catalogue of unsupported or unusual constructs (packoffset, register space4, huge bind groups, bodiless entry points, duplicate pipeline names, ## on API defines, recursive includes ...) ; x {DirectX, Vulkan, Vulkan+buffer addresses, Metal, Metal bytecode} x {all, named, no-pipeline} x layout validation on/off x API defines. Oracle (in a supervised worker process): compile returns; an error renders to a non-empty string; no panic (caught, keyed by source file + normalised message), no process death (SIGSEGV = stack overflow, SIGABRT), CPU time <= 2 s per 4 KB (re-run alone before reporting; 60 s wall kill switch). Non-trivial = input of >= 24 bytes. Distinct = hash of the record.".into();
     ctx.assumptions.push("the harness (and its workers) are built with debug assertions and overflow checks on, like the repository's own cargo test; a plain release build is not separately explored".into());
     ctx.assumptions.push("Metal bytecode is expected to end in MetalCompilerNotFound in this sandbox, which counts as a clean result".into());
     if !ctx.replay_tier(&check_record) {
@@ -508,6 +570,13 @@ pub fn run(ctx: &mut Ctx) {
     );
     // macro definitions with 0-3 parameters invoked with every kind of argument list: too few, too many, empty,
     // blank, spanning lines, comments, nested invocations, unbalanced
+    ctx.run_prop(
+        "property_blocks",
+        6_000 * scale,
+        || (proptest::collection::vec(any::<u16>(), 8..120), config_strategy()),
+        |(ch, c): &(Vec<u16>, (usize, u8, bool, u8))| wrap("property_blocks", property_blocks(ch), c),
+        check_record,
+    );
     ctx.run_prop(
         "macro_invocations",
         6_000 * scale,
